@@ -2,6 +2,7 @@ import ConserveModel.Basic
 import ConserveModel.Apath
 import ConserveModel.ApathSpec
 import ConserveModel.Driver.Blake
+import ConserveModel.Driver.Glob
 import ConserveModel.Driver.Ops
 /-
 cvmodel: line-protocol driver for the executable model.
@@ -42,7 +43,10 @@ def handle (toks : List String) : List String :=
 def handleStateless (toks : List String) : List String :=
   match handleBlake toks with
   | some r => r
-  | none => handle toks
+  | none =>
+    match handleGlob toks with
+    | some r => r
+    | none => handle toks
 
 partial def loop (h : IO.FS.Stream) (out : IO.FS.Stream) (st : Conserve.IO.DState) : IO Unit := do
   let line ← h.getLine
